@@ -50,8 +50,24 @@ def arm (i : Input) : String :=
     else if (((numerics (priM i)).length + (numerics (candM i)).length : Nat) : Int) < i.rmin - nCur then "few-numeric"
     else if (numerics (priM i)).length > 0 then "alloc-priority" else "alloc"
 
+/-- `C03 valid <min> <max> => ok|err`: isReplicationFactorValid against `factorsValid`; the property
+    side: the accepted pairs are exactly (-1,-1) and 0 < min ≤ max (the pairs `allocate` is proved safe for) -/
+def answerValid (ws : List String) : String :=
+  match ws with
+  | [mn, mx, "=>", r] =>
+    match mn.toInt?, mx.toInt? with
+    | some a, some b =>
+      let accepted := r == "ok"
+      let specOk := (a == -1 && b == -1) || (decide (0 < a) && decide (a ≤ b))
+      if accepted && !specOk then "propfail accepts_unsafe_factor_pair arm=valid"
+      else if accepted != factorsValid a b then "diff arm=valid model=" ++ (if factorsValid a b then "ok" else "err")
+      else "ok arm=valid" ++ (if accepted then "" else " trivial")
+    | _, _ => "bad-case valid"
+  | _ => "bad-case valid"
+
 /-- answer for one case line (tokens after the leading "C03") -/
 def answer (ws : List String) : String :=
+  if ws.head? == some "valid" then answerValid ws.tail else
   match parseCase ws with
   | none => "bad-case"
   | some (i, o) =>
